@@ -1610,6 +1610,20 @@ class FunctionBody:
             real = [a for a in args if a.get('kind') != 'CXXDefaultArgExpr']
             if len(real) == 0:
                 return '%s_new_empty()' % ct.name
+            il = real[0] if len(real) == 1 else None
+            while il is not None and il.get('kind') in ('ImplicitCastExpr', 'MaterializeTemporaryExpr', 'CXXBindTemporaryExpr', 'ExprWithCleanups', 'CXXStdInitializerListExpr') and il.get('inner'):
+                if il.get('kind') == 'CXXStdInitializerListExpr':
+                    il = il['inner'][0]
+                    while il.get('kind') in ('ImplicitCastExpr', 'MaterializeTemporaryExpr', 'CXXBindTemporaryExpr') and il.get('inner'):
+                        il = il['inner'][0]
+                    break
+                il = il['inner'][0]
+            if il is not None and il.get('kind') == 'InitListExpr' and 'initializer_list' in ctor_t:
+                # std::vector<T>{a, b, ...}: an empty vector and one push_back per element, in order
+                t = self.tmp(ct.c, '%s_new_empty()' % ct.name)
+                for item in il.get('inner', []) or []:
+                    self.pre.append('%s_push(&%s, %s);' % (ct.name, t, self.expr(item)))
+                return t
             if len(real) == 2 and self.ct(real[0]).kind == 'scalar':
                 return '%s_new_fill(%s, %s)' % (ct.name, self.expr(real[0]), self.expr(real[1]))
             if len(real) == 1 and self.ct(real[0]).kind == 'scalar':
